@@ -28,7 +28,7 @@
 (* harness: every function family gives bit-identical results on every        *)
 (* representation of the same Logical(c).                                     *)
 (***************************************************************************)
-EXTENDS Values, TLC, SequencesExt
+EXTENDS Values, TLC, SequencesExt, ContIdx
 
 CONSTANTS MaxLen, MaxCap
 
@@ -41,8 +41,8 @@ Data(n) == [i \in 1..n |-> 10 + i]          \* distinct payload, position-coded
 
 Logical(r) ==
     CASE r.rep = "vec"     -> r.buf
-      [] r.rep = "ring"    -> [i \in 1..r.len |-> r.buf[((r.head + i - 1) % r.cap) + 1]]
-      [] r.rep = "strided" -> [i \in 1..r.len |-> r.base[r.off + (i - 1) * r.step + 1]]
+      [] r.rep = "ring"    -> [i \in 1..r.len |-> r.buf[RingCell(r.head, r.cap, i - 1)]]
+      [] r.rep = "strided" -> [i \in 1..r.len |-> r.base[StridedCell(r.off, r.step, i - 1)]]
       [] r.rep = "chunked" -> r.flat
 
 \* is the logical sequence one contiguous run of the underlying memory, in order?
@@ -67,8 +67,8 @@ ATryAsSlice(r) == IF ContiguousInOrder(r) THEN <<Logical(r)>> ELSE <<>>
 \* 1-based cell of the underlying storage that logical slot i (0-based) lives in
 WriteCell(r, i) ==
     CASE r.rep = "vec"     -> i + 1
-      [] r.rep = "ring"    -> ((r.head + i) % r.cap) + 1
-      [] r.rep = "strided" -> r.off + i * r.step + 1
+      [] r.rep = "ring"    -> RingCell(r.head, r.cap, i)           \* ContIdx.tla: injective and in the storage for
+      [] r.rep = "strided" -> StridedCell(r.off, r.step, i)        \* EVERY parameter (ContainersProof.tla)
 Storage(r) == CASE r.rep = "vec" -> Len(r.buf) [] r.rep = "ring" -> r.cap [] r.rep = "strided" -> Len(r.base)
 \* the storage after writing payload p (a sequence of ALen(r) values) slot by slot
 Written(r, p) ==
